@@ -169,6 +169,56 @@ theorem section_names_faithful (p q : Pat) (hp : ValidPat p) (hq : ValidPat q) :
     (p.str = q.str → p = q) ∧ strUnstructured p.str = p.unstructured ∧ strEndsDotStar p.str = p.endsDotStar :=
   ⟨pat_str_inj p q hp hq, unstructured_str p hp, endsDotStar_str p hp⟩
 
+/-- a module that no section matches is checked with the global options -/
+theorem unmatched_module_global (g : Opts) (secs : Sections) (m : List Str)
+    (hv : ValidSecs secs) (hm : ValidMod m) (h : precedenceChain secs m = []) :
+    cloneForModule g secs (modPat m) = g := by
+  rw [resolution_matches_doc g secs m hv hm, specResolve, h]; rfl
+
+/-- The statement "a setting in a per-module section does not change the options of other modules" is
+    **false** of the current code for the key `strict`: `[mypy-pk.a] strict = True` runs `set_strict_flags` on
+    the global options (witness: `[mypy]` without `strict`, one per-module section with it). -/
+theorem not_section_strict_local :
+    ¬ (∀ (g : Opts) (assign : Changes) (perModule : List Bool) (k : Str),
+        (strictApplied g assign (false :: perModule)).get k = g.get k) := by
+  intro h
+  have := h { get := fun _ => .bool false, disabled := fun _ => false, enabled := fun _ => false, imiPerModule := false }
+    [("disallow_untyped_defs".toList, .bool true)] [true] "disallow_untyped_defs".toList
+  revert this
+  decide
+
+/-- … and holds when no per-module section says `strict` -/
+theorem section_strict_local_partial (g : Opts) (assign : Changes) (n : Nat) :
+    strictApplied g assign (List.replicate (n + 1) false) = g := by
+  unfold strictApplied
+  have : (List.replicate (n + 1) false).any id = false := by
+    rw [List.any_eq_false]; intro x hx; rw [List.eq_of_mem_replicate hx]; simp
+  rw [this]; rfl
+
+/-! ### from the config file to the section table -/
+
+/-- a section applies to each of its patterns: when no pattern is named by two sections, `mypy.ini` /
+    `setup.cfg` and `pyproject.toml` both yield exactly that table, in file order -/
+theorem sections_faithful (fs : List FileSection) (h : ((flatSections fs).map Prod.fst).Nodup) :
+    iniSections fs = flatSections fs ∧ tomlSections fs = flatSections fs :=
+  sections_faithful_partial fs h
+
+/-- The unrestricted statement "both file formats give a module the same options" is **false** of the
+    current code: `[mypy-pk.a,pk.b] dud = True` followed by `[mypy-pk.a] wra = True` leaves `pk.a` without
+    `dud` in an ini file (`per_module_options[glob] = updates` replaces the earlier table), while the same
+    two tables in pyproject.toml are merged. -/
+theorem not_ini_toml_sections_agree :
+    ¬ (∀ (fs : List FileSection) (g : Opts) (m : List Str) (k : Str),
+        (cloneForModule g (iniSections fs) (modPat m)).get k =
+        (cloneForModule g (tomlSections fs) (modPat m)).get k) := by
+  intro h
+  have := h [([[.lit "pk".toList, .lit "a".toList], [.lit "pk".toList, .lit "b".toList]], [("dud".toList, .bool true)]),
+             ([[.lit "pk".toList, .lit "a".toList]], [("wra".toList, .bool true)])]
+    { get := fun _ => .bool false, disabled := fun _ => false, enabled := fun _ => false, imiPerModule := false }
+    ["pk".toList, "a".toList] "dud".toList
+  revert this
+  decide
+
 /-! ### non-vacuity: concrete instances of the hypotheses, evaluated -/
 
 section examples
